@@ -21,9 +21,9 @@ import (
 func init() {
 	core.Register(&core.Prop{
 		ID: "C18", Level: "exploration",
-		Rule: "cases are (schedule configuration, instant) and (configuration, instant pair): 14 start/end pairs x weekday subsets and all 49 start/end day pairs x 6 time pairs, in 6 time zones (incl. 30-minute DST), instants every 17 minutes over 5 weeks around both 2026 DST changes of each zone, pairs within 9 days; instants within 90 s of a window edge or whose window edge falls next to a UTC-offset change are skipped; non-trivial = instant or pair within one grid step of a window boundary or across a week wrap; distinct by (configuration, boundary, side)",
+		Rule:        "cases are (schedule configuration, instant) and (configuration, instant pair): 14 start/end pairs x weekday subsets and all 49 start/end day pairs x 6 time pairs, in 6 time zones (incl. 30-minute DST), instants every 17 minutes over 5 weeks around both 2026 DST changes of each zone, pairs within 9 days; instants within 90 s of a window edge or whose window edge falls next to a UTC-offset change are skipped; non-trivial = instant or pair within one grid step of a window boundary or across a week wrap; distinct by (configuration, boundary, side)",
 		Assumptions: []string{"edges (within 90 s) are not judged", "window edges that fall within 3 h of a zone offset change are not judged"},
-		FloorQuick: 200, FloorThorough: 2000,
+		FloorQuick:  200, FloorThorough: 2000,
 		Parts: []core.Part{{Name: "schedule", Run: run, Replay: replay}},
 	})
 }
@@ -170,11 +170,11 @@ func classify(ws []window, t time.Time, loc *time.Location) (idx int, judged boo
 
 type app struct{}
 
-func (app) OnCreate(quickfix.SessionID)                                          {}
-func (app) OnLogon(quickfix.SessionID)                                           {}
-func (app) OnLogout(quickfix.SessionID)                                          {}
-func (app) ToAdmin(*quickfix.Message, quickfix.SessionID)                        {}
-func (app) ToApp(*quickfix.Message, quickfix.SessionID) error                    { return nil }
+func (app) OnCreate(quickfix.SessionID)                                                 {}
+func (app) OnLogon(quickfix.SessionID)                                                  {}
+func (app) OnLogout(quickfix.SessionID)                                                 {}
+func (app) ToAdmin(*quickfix.Message, quickfix.SessionID)                               {}
+func (app) ToApp(*quickfix.Message, quickfix.SessionID) error                           { return nil }
 func (app) FromAdmin(*quickfix.Message, quickfix.SessionID) quickfix.MessageRejectError { return nil }
 func (app) FromApp(*quickfix.Message, quickfix.SessionID) quickfix.MessageRejectError   { return nil }
 
